@@ -222,7 +222,7 @@ def gen_case(rng, idx):
         if nm in (rel_ex, rel_sf):
             kind = "normal"
             init = max(init, 0.1) if init < 10 else init
-        force = (kind == "normal" and rng.random() < 0.08)
+        force = (kind == "normal" and rng.random() < 0.15)
         l = " %s %s %s" % (nm, fmt(target), fmt(init))
         if kind != "normal":
             l += " " + kind
@@ -354,7 +354,10 @@ def gen_case(rng, idx):
                 if kind != "normal":
                     l += " " + kind
                 extra_defs.append(l)
-                pk.append({"name": p0["name"], "target": target, "init": init, "kind": kind, "force": False})
+                f2 = (kind == "normal" and rng.random() < 0.12)
+                if f2:
+                    extra_defs.append("  -force_equality true")
+                pk.append({"name": p0["name"], "target": target, "init": init, "kind": kind, "force": f2})
             extra_defs += gas_lines
             stages.append(pk)
             # the solid solution may be REDEFINED for the follow-up calculation: other name (full prep), ideal <-> Guggenheim,
@@ -530,6 +533,26 @@ def corpus():
         meta = {"pps": pr, "exch": None, "surf": None, "ss": None, "hp": False, "temp": 25.0}
         text += _punch(pr)
         out.append({"id": "corpus-restrictions-" + dbn, "db": dbn, "text": text, "flags": [], "meta": meta})
+    # -force_equality with too little of the phase: the unchanged library ends these with an ERROR (outside the premises; then
+    # nothing is judged); a run that COMPLETES must have the phase at its target
+    pf = [_pp("Calcite", 0, 1e-5, force=True)]
+    text = "SOLUTION 1\n temp 25\n pH 7\n Na 1\n Cl 1 charge\nEQUILIBRIUM_PHASES 1\n Calcite 0 1e-05\n  -force_equality true\n"
+    meta = {"pps": pf, "exch": None, "surf": None, "ss": None, "hp": False, "temp": 25.0}
+    out.append({"id": "corpus-force-too-little", "db": "phreeqc.dat", "text": text + _punch(pf), "flags": [], "meta": meta})
+    pf = [_pp("Calcite", 0, 1), _pp("Gypsum", 0, 1e-3, force=True)]
+    text = ("SOLUTION 1\n temp 40\n pH 7\n Na 100\n Cl 100 charge\nEQUILIBRIUM_PHASES 1\n Calcite 0 1\n Gypsum 0 0.001\n  -force_equality true\n")
+    meta = {"pps": pf, "exch": None, "surf": None, "ss": None, "hp": False, "temp": 40.0}
+    out.append({"id": "corpus-force-too-little-gypsum", "db": "phreeqc.dat", "text": text + _punch(pf), "flags": [], "meta": meta})
+    pf = [_pp("Calcite", 0, 1e-3, force=True)]
+    text = ("SOLUTION 1\n temp 25\n pH 7\n Na 1\n Cl 1 charge\nREACTION 1\n HCl 1\n 0.0002 0.0005 0.003 0.006 moles\n"
+            "EQUILIBRIUM_PHASES 1\n Calcite 0 0.001\n  -force_equality true\nINCREMENTAL_REACTIONS false\n")
+    meta = {"pps": pf, "stages": [pf], "nsteps": 4, "incremental": False, "exch": None, "surf": None, "ss": None, "hp": False, "temp": 25.0}
+    out.append({"id": "corpus-force-exhausted-in-steps", "db": "phreeqc.dat", "text": text + _punch(pf), "flags": [], "meta": meta})
+    # finding F-C03-3: a force_equality phase that starts with exactly 0 mol in an undersaturated solution
+    pf = [_pp("Calcite", 0, 0, force=True)]
+    text = "SOLUTION 1\n pH 7\n Na 1\n Cl 1 charge\n Ca 0.1\n C(4) 0.1\nEQUILIBRIUM_PHASES 1\n Calcite 0 0\n  -force_equality true\n"
+    meta = {"pps": pf, "exch": None, "surf": None, "ss": None, "hp": False, "temp": 25.0}
+    out.append({"id": "corpus-F-C03-3", "db": "phreeqc.dat", "text": text + _punch(pf), "flags": [], "meta": meta})
     # several reaction steps with INCREMENTAL_REACTIONS true: every step starts from the previous one, and the restrictions
     # refer to the amounts at the START of each step (CO2 added then removed; temperature 25 -> 5 -> 90 C)
     pc = [_pp("Calcite", 0, 0.01, "dissolve_only"), _pp("Gypsum", 0, 0.002, "precipitate_only")]
@@ -562,7 +585,12 @@ def corpus():
 
 # ----------------------------------------------------------------------------- observation -> Coq case
 
-KIND = {"normal": "KNormal", "dissolve_only": "KDissolve", "precipitate_only": "KPrecip"}
+KIND = {"normal": "KNormal", "dissolve_only": "KDissolve", "precipitate_only": "KPrecip", "force_equality": "KForce"}
+
+
+def kind_of(p):
+    """-force_equality is a restriction of its own: the phase must end AT its target (or the run must end with an error)"""
+    return "force_equality" if (p.get("force") and p["kind"] == "normal") else p["kind"]
 
 
 def q(x):
@@ -671,16 +699,16 @@ def build_case(meta, row, init_rows=None, dump=None, more_rows=()):
         m, s = row.get("eq%d" % k), row.get("si%d" % k)
         if not isinstance(m, float) or not isinstance(s, float) or not (math.isfinite(m) and math.isfinite(s)):
             return None
-        pps.append("PP %s %s %s %s %s" % (KIND[p["kind"]], q(p["target"]), q(p["init"]), q(m), q(s)))
-        items.append(("pp", p["name"], p["kind"], p["target"], p["init"], m, s))
+        pps.append("PP %s %s %s %s %s" % (KIND[kind_of(p)], q(p["target"]), q(p["init"]), q(m), q(s)))
+        items.append(("pp", p["name"], kind_of(p), p["target"], p["init"], m, s))
     # follow-up calculations (model reused): the phases of each later stage, and the site totals again
     for stage, r2 in zip((meta.get("stages") or [])[1:], more_rows):
         for k, p in enumerate(stage):
             m, s = r2.get("eq%d" % k), r2.get("si%d" % k)
             if not (_num(m) and _num(s)):
                 return None
-            pps.append("PP %s %s %s %s %s" % (KIND[p["kind"]], q(p["target"]), q(p["init"]), q(m), q(s)))
-            items.append(("pp", p["name"] + p.get("label", " [follow-up calculation]"), p["kind"], p["target"], p["init"], m, s))
+            pps.append("PP %s %s %s %s %s" % (KIND[kind_of(p)], q(p["target"]), q(p["init"]), q(m), q(s)))
+            items.append(("pp", p["name"] + p.get("label", " [follow-up calculation]"), kind_of(p), p["target"], p["init"], m, s))
         for what, mkey, dest in (("exch", "exch", exs), ("surf", "surf", sfs)):
             mm = meta[mkey]
             if not mm or mm.get("mode") == "related":
@@ -765,6 +793,8 @@ def py_verdict(items):
                 ok = ok and ((abs(s - t) <= 1e-6) if m > 0 else (m == 0 and s <= t + 1e-6))
             elif kind == "dissolve_only":
                 ok = ok and m <= i and (m <= 0 or s >= t - 1e-6) and (m >= i or s <= t + 1e-6)
+            elif kind == "force_equality":
+                ok = ok and abs(s - t) <= 1e-6
             else:
                 ok = ok and m >= i and s <= t + 1e-6 and (m <= i or s >= t - 1e-6)
             if not ok:
@@ -811,6 +841,7 @@ def py_verdict(items):
 
 F1_KEY = "C03:precipitate_only+diffuse_layer:precipitated-amount-made-inert-by-repeated-model-calls"
 F2_KEY = "C03:precipitate_only+element-absent:stale-phase-reaction-of-earlier-model:amount-lost"
+F3_KEY = "C03:force_equality:phase-starting-at-exactly-0-mol-undersaturated:completes-off-target-without-error"
 
 
 def finding_key(job, meta, bad):
@@ -822,6 +853,10 @@ def finding_key(job, meta, bad):
         # is respected) and ends UNDERSATURATED; a precipitate_only phase that lost material is a different failure
         if all(b[2][5] > b[2][4] and b[2][6] < b[2][3] for b in bad):
             return F1_KEY
+    # signature of F-C03-3 only: every failing item is a force_equality phase that STARTS the step with exactly 0 mol, stays
+    # at 0 mol and ends BELOW its target (a forced phase that had material and ran out is a different failure)
+    if bad and all(b[0] == "pp:force_equality" and len(b) > 2 and b[2][4] == 0 and b[2][5] == 0 and b[2][6] < b[2][3] for b in bad):
+        return F3_KEY
     # signature of F-C03-2 only: in a LATER calculation of a run a precipitate_only phase whose element is not in the
     # system (SI reported as -99.99 / -999: "Element not present") ends below its initial amount
     if bad and len((meta.get("stages") or [1])) > 1 and all(
